@@ -194,6 +194,15 @@ def run_case(ctx, case):
     ok, gs = ctx.guarded('self', sig, compare, a, a, method=m, data=wit, **kw)
     if ok:
         gs = np.asarray(gs)
+        # the same object passed twice is an ordinary pair of arguments: every entry (the diagonal of a tied RDM under
+        # tau-a / rho-a included, which is below 1) equals the definition
+        ctx.case('self', dict(sig, whole_matrix=True))
+        want_s = np.array([[ref_value(m, x, y, n, sigma, ctx) for y in v1] for x in v1])
+        if gs.shape != want_s.shape or not close(gs, want_s, rt, at):
+            ctx.fail('self', dict(sig, what='same_object_twice'), f'compare(a, a, {m!r}) differs from the definition '
+                     f'by {maxdiff(gs, want_s) if gs.shape == want_s.shape else gs.shape}; got {gs.tolist()} want '
+                     f'{want_s.tolist()}', wit())
+            return
         for i in range(v1.shape[0]):
             if m in ('tau-a', 'rho-a') and has_ties(v1[i]):
                 continue
